@@ -689,7 +689,9 @@ Definition do_hello (h : hub) (c : N) (cn : conn) (hl : hello) : hub * list out 
       | e => (expect_again h, [ToConn c (SError e)])
       end
   | HInternal b tok incallfeat dialout =>
-      if throttled h cn.(c_addr) ACT_INTERNAL then (expect_again h, [ToConn c (SError E_too_many_requests)])
+      (* tok = 4: the server has no internal secret configured (the driver's marker): internal clients are refused *)
+      if N.eqb tok 4 then (expect_again h, [ToConn c (SError E_invalid_client_type)])
+      else if throttled h cn.(c_addr) ACT_INTERNAL then (expect_again h, [ToConn c (SError E_too_many_requests)])
       else if negb (N.eqb tok 0) then
         (expect_again (record_failure h cn.(c_addr) ACT_INTERNAL), [ToConn c (SError E_invalid_token)])
       else if h.(h_nb) <=? b then
